@@ -2,6 +2,7 @@
 uint64_t IN_n, IN_gk;
 double IN_a, IN_b, IN_c, IN_d, IN_e;
 bool IN_xr;
+#if defined(VF_ENTRY_h_poly_translate) || defined(VF_ENTRY_h_poly_scale) || defined(VF_ENTRY_h_poly_rotate) || defined(VF_ENTRY_h_poly_transform)
 static Polygon c10_poly;
 static void c10_poly_state(void) {
     VF_IN(u64, IN_n); VF_IN(u64, IN_gk);
@@ -23,6 +24,7 @@ static void c10_poly_state(void) {
     if (GK < IN_n) { IN_d = nondet_double(); IN_e = nondet_double(); c10_poly.point_array.items[GK].x = IN_d; c10_poly.point_array.items[GK].y = IN_e; }
 #endif
 }
+#endif
 #ifdef VF_ENTRY_h_poly_translate
 void h_poly_translate(void) {
     c10_poly_state();
@@ -57,5 +59,30 @@ void h_poly_transform(void) {
     VF_IN(double, IN_a); VF_IN(double, IN_b); VF_IN(double, IN_c); VF_IN(bool, IN_xr);
     magnification = IN_a; rotation = IN_b; origin.x = IN_c; origin.y = IN_a; x_reflection = IN_xr;
     VF_CALL_V(Polygon__transform, this_, magnification, x_reflection, rotation, origin);
+}
+#endif
+
+#if defined(VF_ENTRY_h_label_transform) || defined(VF_ENTRY_h_reference_transform)
+double IN_ox, IN_oy, IN_rot0, IN_mag0; bool IN_xr0;
+#ifdef VF_ENTRY_h_label_transform
+#define PLACED Label
+#define PLACED_FN Label__transform
+#define PLACED_H h_label_transform
+#else
+#define PLACED Reference
+#define PLACED_FN Reference__transform
+#define PLACED_H h_reference_transform
+#endif
+static PLACED c10_placed;
+void PLACED_H(void) {
+    memset(&c10_placed, 0, sizeof c10_placed);
+    VF_IN(double, IN_ox); VF_IN(double, IN_oy); VF_IN(double, IN_rot0); VF_IN(double, IN_mag0); VF_IN(bool, IN_xr0);
+    c10_placed.origin.x = IN_ox; c10_placed.origin.y = IN_oy; c10_placed.rotation = IN_rot0;
+    c10_placed.magnification = IN_mag0; c10_placed.x_reflection = IN_xr0;
+    PLACED *this_ = &c10_placed;
+    double mag, rot; bool x_refl; Vec2 orig;
+    VF_IN(double, IN_a); VF_IN(double, IN_b); VF_IN(double, IN_c); VF_IN(double, IN_d); VF_IN(bool, IN_xr);
+    mag = IN_a; rot = IN_b; orig.x = IN_c; orig.y = IN_d; x_refl = IN_xr;
+    VF_CALL_V(PLACED_FN, this_, mag, x_refl, rot, orig);
 }
 #endif
